@@ -295,6 +295,27 @@ func runC10(c C10Case, mutate bool) (*c10Run, *Failure) {
 			if err != nil {
 				return nil, failf("step %d: %s rejected valid operands: %v", si, n.Op, err)
 			}
+			// slices handed to the library still hold what the caller put in them
+			for _, s := range p.Ints {
+				if !ref.EqShape(s, n.S) {
+					return nil, failf("step %d: %s wrote to the caller's dims slice: %v became %v", si, n.Op, n.S, s)
+				}
+			}
+			for _, s := range p.Ranges {
+				want := prog.ToRanges(n.R)
+				for k := range s {
+					if k >= len(want) || s[k] != want[k] {
+						return nil, failf("step %d: %s wrote to the caller's index slice: %v became %v", si, n.Op, want, s)
+					}
+				}
+			}
+			for _, s := range p.Tensors {
+				for k := range s {
+					if s[k] != in[k] {
+						return nil, failf("step %d: %s wrote to the caller's tensor list", si, n.Op)
+					}
+				}
+			}
 			for _, s := range p.Ints {
 				own = append(own, &owned{ints: s, result: len(pool), op: n.Op})
 			}
